@@ -21,6 +21,7 @@ mod c11;
 mod c12;
 mod c10;
 mod c17;
+mod gram;
 
 use rayon::prelude::*;
 
@@ -207,6 +208,43 @@ fn probe(args: &[String]) {
     let show = args.iter().any(|a| a == "--show");
     let tapes = pt::draw_tapes(seed, n, 600);
     let model_profile = arg_value(args, "--profile").as_deref() == Some("model");
+    if arg_value(args, "--profile").as_deref() == Some("gram") {
+        let noise: usize = arg_value(args, "--noise").map(|s| s.parse().unwrap()).unwrap_or(0);
+        let res: Vec<(usize, String, String)> = tapes
+            .par_iter()
+            .enumerate()
+            .map(|(i, tape)| {
+                let text = gram::gen_module(tape, noise);
+                let verdict = if build {
+                    match build_checks::c09_source_only(&text) {
+                        Ok(()) => "OK-or-rejected".to_string(),
+                        Err(e) => format!("FAIL {}", e),
+                    }
+                } else {
+                    let s = util::Scratch::new("probe");
+                    let src = s.join("src");
+                    std::fs::create_dir_all(&src).unwrap();
+                    std::fs::write(src.join("thy.eql"), &text).unwrap();
+                    let out = s.join("out");
+                    let r = pipeline::run_cli(&pipeline::CliOpts { src: &src, out: &out, component_out: None, rustc_path: None, threads: None, envs: vec![], cwd: None });
+                    if r.accepted() { "OK".to_string() } else { format!("REJECTED[{:?}] {}", r.out.code, r.out.stderr_str().lines().next().unwrap_or("")) }
+                };
+                (i, text, verdict)
+            })
+            .collect();
+        let mut hist: std::collections::BTreeMap<String, usize> = Default::default();
+        for (i, text, v) in &res {
+            let key: String = v.chars().map(|c| if c.is_ascii_digit() { '#' } else { c }).take(70).collect();
+            *hist.entry(key).or_default() += 1;
+            if show || v.starts_with("FAIL") || v.contains("[Some(101)]") {
+                println!("=== module {} : {}\n{}", i, v, text);
+            }
+        }
+        for (k, c) in hist {
+            println!("{:5}  {}", c, k);
+        }
+        return;
+    }
     let results: Vec<(usize, String, String)> = tapes
         .par_iter()
         .enumerate()
